@@ -134,6 +134,12 @@ class Gen:
                             f.ty = r.choice([('param', 'T'), ('vec', ('param', 'T'), '')])
                             va.fields.append(f)
                     it.variants.append(va)
+                if all(v.kind == 'unit' for v in it.variants):      # an all-unit enum with tag/content is rejected by the parser
+                    va = Variant()
+                    va.ident = 'Last'
+                    va.kind = 'tuple'
+                    va.ty = self.ref(targets, it.generics)
+                    it.variants.append(va)
                 if it.generics and not any('T' in progs.show_type(x) for v in it.variants for x in ([v.ty] if v.ty else []) + [f.ty for f in v.fields]):
                     va = Variant()
                     va.ident = 'Gen'
